@@ -170,8 +170,10 @@ func deepDefs(v ssa.Value, scope []*ssa.Function) []ssa.Value {
 }
 
 // trueImplies reports whether every `return true` of the bool-valued function h
-// (result index ri) is dominated, inside h, by a block for which pred holds.
-func trueImplies(h *ssa.Function, ri int, pred func(b *ssa.BasicBlock) bool) bool {
+// (result index ri) happens where pred holds: pred gets the block in which the
+// returned value is chosen plus the fact that the returned (non-constant) value
+// itself is true.
+func trueImplies(h *ssa.Function, ri int, pred func(b *ssa.BasicBlock, extra []flow.Fact) bool) bool {
 	if h == nil || h.Blocks == nil {
 		return false
 	}
@@ -181,14 +183,17 @@ func trueImplies(h *ssa.Function, ri int, pred func(b *ssa.BasicBlock) bool) boo
 		if !ok || ri >= len(ret.Results) {
 			continue
 		}
-		// which return values can be true here?
 		for _, d := range phiEdgesWithBlocks(ret.Results[ri], b) {
 			cst, isC := d.v.(*ssa.Const)
 			if isC && cst.Value != nil && cst.Value.String() == "false" {
 				continue
 			}
 			n++
-			if !pred(d.b) {
+			var extra []flow.Fact
+			if !isC {
+				extra = flow.Expand([]flow.Fact{{Cond: d.v, True: true}})
+			}
+			if !pred(d.b, extra) {
 				return false
 			}
 		}
